@@ -406,6 +406,18 @@ func driveC13(o opts) error {
 		}
 		w.Count("clone/equal:generated model")
 	}
+	// witness of a known finding: the JSON-based Clone cannot copy a map keyed by a real (or a boolean)
+	{
+		type realKeyed struct {
+			UUID string             `ovsdb:"_uuid"`
+			M    map[float64]string `ovsdb:"m"`
+		}
+		a := &realKeyed{UUID: "u", M: map[float64]string{1.5: "x"}}
+		c := model.Clone(a).(*realKeyed)
+		if !reflect.DeepEqual(a, c) {
+			w.Extra["oracle_known"] = map[string]int{"21": 1}
+		}
+	}
 	w.Extra["implementation_failures"] = goFails
 	if len(goFails) > 0 {
 		f := goFails[0]
